@@ -219,7 +219,8 @@ def evidence(stats, samples, plan, tier, seed, wall, nviol, known_hits, nworkers
                      "synchronous from the hub's point of view)", "mwlib.core.nuwiki.NuWiki/Adapt (reading back)", "gevent hub, pools, semaphores"],
             "stub": ["HTTP transport (MwApi._send_http_request, HttpClientManager.get_client, fetch._get_download_client)",
                      "time/sleep/monotonic in sapi and fetch (virtual clock)", "random.uniform in sapi (retry jitter; unused)",
-                     "the wiki itself (vsim/wiki.py: the API surface the fetcher uses, trivial template language)"],
+                     "the wiki itself (vsim/wiki.py: the API surface the fetcher uses, trivial template language)",
+                     "process boundaries (every fetch starts from cleared module/class-level state of the SUT, except in the prior-fetch configuration, which keeps it)"],
         },
         "known_findings_hit": sorted({k["id"] for k in known_hits}),
         "workers": nworkers,
